@@ -104,6 +104,10 @@ func main() {
 	switch os.Args[1] {
 	case "l1":
 		cmdL1(os.Args[2:])
+	case "geom":
+		cmdGeom(os.Args[2:])
+	case "grid":
+		cmdGrid(os.Args[2:])
 	case "receipt":
 		cmdReceipt(os.Args[2:])
 	case "auth":
